@@ -24,7 +24,7 @@ fn prog(op: Op, extra_inputs: usize) -> Arc<Program> {
 
 fn wiring(rng: &mut impl RngCore) -> [usize; 4] {
     // registers 2..=5 are the four inputs; 0/1 are ZERO/ONE
-    match rng.next_u32() % 8 {
+    match rng.next_u32() % 10 {
         0 => [2, 3, 4, 5],
         1 => [2, 2, 4, 5],
         2 => [2, 3, 2, 5],
@@ -32,6 +32,16 @@ fn wiring(rng: &mut impl RngCore) -> [usize; 4] {
         4 => [2, 3, 4, 0],
         5 => [1, 3, 4, 5],
         6 => [2, 3, 3, 3],
+        7 => {
+            // the circuit constants ZERO / ONE wired into any position
+            let mut w = [2, 3, 4, 5];
+            let k = rng.next_u32() as usize % 4;
+            w[k] = (rng.next_u32() % 2) as usize;
+            if rng.next_u32() % 3 == 0 {
+                w[(k + 1) % 4] = (rng.next_u32() % 2) as usize;
+            }
+            w
+        }
         _ => [
             2 + rng.next_u32() as usize % 4,
             2 + rng.next_u32() as usize % 4,
